@@ -254,7 +254,7 @@ void c19_split_join(pbt::Source& src) {
         if (long_mode()) {
             // scale classes: few long parts / hundreds to thousands (rarely > 65536) of short parts with now and then a
             // long one; lengths and letters expanded from a drawn seed
-            int cls = (int)src.weighted({4, 3, 3, 3, 1});
+            int cls = (int)src.weighted({40, 30, 30, 30, 2});
             if (cls == 0) {
                 for (size_t i = 0; i < k; ++i) parts.push_back(src.chance(160) ? gen_long(src, clean) : gen_over(src, clean, 5));
             } else {
